@@ -2064,6 +2064,7 @@ enum QR {
     QInvInv,
     QNegNeg,
     QFromF64,
+    QIntAddSub,
 }
 
 const Q_ROUTES: &[QR] = &[
@@ -2087,6 +2088,8 @@ const Q_ROUTES: &[QR] = &[
     QR::QInvInv,
     QR::QNegNeg,
     QR::QFromF64,
+    QR::QIntAddSub,
+    QR::QIntAddSub,
 ];
 
 fn qr_label(r: QR) -> &'static str {
@@ -2104,6 +2107,7 @@ fn qr_label(r: QR) -> &'static str {
         QR::QInvInv => "route:inv(inv(q))",
         QR::QNegNeg => "route:-(-q)",
         QR::QFromF64 => "route:TryFrom<f64>",
+        QR::QIntAddSub => "route:(q+k)-k with an integer k",
     }
 }
 
@@ -2177,7 +2181,7 @@ fn build_qop(n: Int, d: Nat, raw: &RawQOp) -> QOp {
     let (ridx, g, gone, cn, cd, alt) = raw;
     let route = pick(Q_ROUTES, *ridx);
     let mut op = QOp { n, d, route, g: if *gone { Nat(vec![1]) } else { g.clone() }, cn: cn.clone(), cd: cd.clone(), alt: *alt };
-    if !matches!(route, QR::QAddSub | QR::QMulDiv) {
+    if !matches!(route, QR::QAddSub | QR::QMulDiv | QR::QIntAddSub) {
         op.cn = Int::default();
         op.cd = Nat(vec![1]);
     }
@@ -2360,6 +2364,27 @@ macro_rules! q_routes {
                     qcheck(tr, "-q", n.numerator(), n.denominator(), &-want.clone(), $canon);
                     -&n
                 }
+                QR::QIntAddSub => {
+                    // q + k built directly in unreduced form, then the integer taken off again with
+                    // the rational-with-integer operators (a Relaxed result keeps its denominator:
+                    // the value 0 comes out as 0/(d·g))
+                    let k = op.cn.big();
+                    let t = <$T>::from_parts(n2i(&((op.n.big() + &k * nzi(BigInt::from(op.d.big()))) * &g)), n2u(dg.magnitude()));
+                    qcheck(tr, "q+k (from_parts)", t.numerator(), t.denominator(), &(&want + Q::from_integer(k.clone())), $canon);
+                    let ki = n2i(&k);
+                    let unsigned = alt & 8 != 0 && !k.is_negative();
+                    match alt % 6 {
+                        0 if unsigned => t - n2u(k.magnitude()),
+                        0 => t - ki,
+                        1 if unsigned => &t - &n2u(k.magnitude()),
+                        1 => &t - &ki,
+                        2 => t + n2i(&-k.clone()),
+                        3 => n2i(&-k.clone()) + &t,
+                        4 if unsigned => -(n2u(k.magnitude()) - t),
+                        4 => -(ki - t),
+                        _ => -(&ki - &t),
+                    }
+                }
                 QR::QFromF64 => match as_f64(&want) {
                     Some(f) => <$T>::try_from(f).expect("try_from(finite f64)"),
                     None => {
@@ -2431,6 +2456,22 @@ fn run_ratio(c: &RatioCase, _ctx: &Ctx) -> Out {
                 let (n, d) = (i2n(r.numerator()), BigInt::from(u2n(r.denominator())));
                 if !n.gcd(&d).is_one() {
                     out.label("Relaxed operand not in lowest terms");
+                }
+                // the equality predicates answer for the value, not for the stored parts
+                let (wz, wo) = (vals[idx].is_zero(), vals[idx].is_one());
+                let rb = &rs[idx];
+                if (r.is_zero(), r.is_one(), rb.is_zero(), rb.is_one()) != (wz, wo, wz, wo) {
+                    out.fail(format!(
+                        "operand {idx} via {} = {}/{}: Relaxed is_zero {} is_one {}, RBig is_zero {} is_one {}; the value is {}zero and {}one",
+                        qr_label(op.route), show_i(&n), show_i(&d), r.is_zero(), r.is_one(), rb.is_zero(), rb.is_one(), if wz { "" } else { "not " }, if wo { "" } else { "not " }
+                    ));
+                    return out;
+                }
+                if wo && !n.is_one() {
+                    out.label("Relaxed one stored as k/k");
+                }
+                if wz && !d.is_one() {
+                    out.label("Relaxed zero stored as 0/k");
                 }
                 xs.push(r);
             }
@@ -2842,7 +2883,7 @@ fn run_hist(c: &HistCase, _ctx: &Ctx) -> Out {
 fn main() {
     let mut ck = Check::new(
         "C05",
-        "same value, different route: a case holds three operands, each a target value plus one of 28 integer / 17 float / 13 rational routes (from_words with zero padding, le/be bytes, parse in radix 10/16/2/36/7, From<primitive>, (v+k)-k, (v-k)+k, (v*k)/k, q*k+r, (v<<s)>>s, xor twice, neg/not twice, clone, clone_from onto a large / small value, mem::take, serde, through RBig / FBig, word pieces, set_bit/clear_bit, ones(n)-d, pow, split_bits / clear_high_bits, chunks, from_static_words on a reclaimed boxed slice, sqrt_rem; floats: Repr::new / from_parts / from_parts_const / from_str with unnormalised significands, with_precision up and back, with_rounding, with_base 2<->16, (x+y)-y, (x*k)/k, shifts, From<IBig>, TryFrom<f64>, constants, +-inf, zero, precisions digits+{0,1,2,5,20,100} or unlimited; rationals: from_parts(n*g, d*g), from_parts_signed, from_str_radix, From<int>, (q+c)-c, (q*c)/c, relax/canonicalize, from_parts_const, inv twice, TryFrom<f64>, each as RBig and as Relaxed). Operands of a case are equal or differ by +-1, one bit, one word, sign, one digit, one exponent step, a tiny fraction, or are independent; integer values concentrate on 0-4 words. Every produced integer (intermediates included, numerators / denominators / significands too) is read through the dashu_verif hook: target value and canonical layout (|capacity| 1/2 inline, >= 3 heap with len >= 3, top word != 0, len <= capacity, zero = +1); floats must be in normal form with at most precision+1 digits. Every ordered pair (9 per case): ==, !=, cmp, partial_cmp, < <= > >=, AbsOrd::abs_cmp, AbsEq, std Hash (UBig, IBig, RBig) against the order of the model values (num-bigint / BigRational / exact n*B^e with infinities); FBig also across rounding-mode types, float Repr ==/cmp, UBig<->IBig and RBig<->Relaxed abs_cmp, rationals against neighbouring integers and binary floats (AbsOrd). int_history: up to 14 in-place / by-reference steps on a pool of 4 IBig with a BigInt model, layout after every step, then every slot against a freshly built equal value. Non-trivial: a pair with different routes whose value has >= 2 words (floats: different routes or precisions; history: a step crossing the inline/heap boundary); distinct by case digest.",
+        "same value, different route: a case holds three operands, each a target value plus one of 28 integer / 17 float / 13 rational routes (from_words with zero padding, le/be bytes, parse in radix 10/16/2/36/7, From<primitive>, (v+k)-k, (v-k)+k, (v*k)/k, q*k+r, (v<<s)>>s, xor twice, neg/not twice, clone, clone_from onto a large / small value, mem::take, serde, through RBig / FBig, word pieces, set_bit/clear_bit, ones(n)-d, pow, split_bits / clear_high_bits, chunks, from_static_words on a reclaimed boxed slice, sqrt_rem; floats: Repr::new / from_parts / from_parts_const / from_str with unnormalised significands, with_precision up and back, with_rounding, with_base 2<->16, (x+y)-y, (x*k)/k, shifts, From<IBig>, TryFrom<f64>, constants, +-inf, zero, precisions digits+{0,1,2,5,20,100} or unlimited; rationals: from_parts(n*g, d*g), from_parts_signed, from_str_radix, From<int>, (q+c)-c, (q+k)-k with an integer k on an unreduced start (Relaxed zero as 0/(d·g)), (q*c)/c, relax/canonicalize, from_parts_const, inv twice, TryFrom<f64>, each as RBig and as Relaxed). Operands of a case are equal or differ by +-1, one bit, one word, sign, one digit, one exponent step, a tiny fraction, or are independent; integer values concentrate on 0-4 words. Every produced integer (intermediates included, numerators / denominators / significands too) is read through the dashu_verif hook: target value and canonical layout (|capacity| 1/2 inline, >= 3 heap with len >= 3, top word != 0, len <= capacity, zero = +1); floats must be in normal form with at most precision+1 digits. Every ordered pair (9 per case): ==, !=, cmp, partial_cmp, < <= > >=, AbsOrd::abs_cmp, AbsEq, std Hash (UBig, IBig, RBig) against the order of the model values (num-bigint / BigRational / exact n*B^e with infinities); FBig also across rounding-mode types, float Repr ==/cmp, UBig<->IBig and RBig<->Relaxed abs_cmp, rationals against neighbouring integers and binary floats (AbsOrd). int_history: up to 14 in-place / by-reference steps on a pool of 4 IBig with a BigInt model, layout after every step, then every slot against a freshly built equal value. Non-trivial: a pair with different routes whose value has >= 2 words (floats: different routes or precisions; history: a step crossing the inline/heap boundary); distinct by case digest.",
     );
     ck.assume("the raw-representation hook `__verif_repr` of /repo (cfg dashu_verif) reports the stored fields faithfully");
     let steps = if ck.thorough() { 24 } else { 14 };
